@@ -1,4 +1,5 @@
 import Qhttp.Model.Http
+import Qhttp.Lemmas.C03Hdr
 /-
   C03 — every response on the wire is exactly the status, headers and body that were set.
 -/
